@@ -73,6 +73,8 @@ package server
 //@   pure-call
 //@   ensures ret0 == le16at(b, 0)
 //@ constglobal mysql.ErrMalformPacket
+//@ constglobal mysql.ErrBadConn
+//@ axiom errBadConnNonNilS: mysql.ErrBadConn != nil
 //@ axiom errMalformNonNil: mysql.ErrMalformPacket != nil
 // every bound value of statement s is cleared
 //@ pure unbound(s *Stmt) bool = len(s.args) == s.paramCount && forall(i, 0, len(s.args), s.args[i] == nil)
@@ -263,3 +265,180 @@ package server
 //@   loop 0 invariant true
 //@   ensures ret0 ==> mem(u.users[user], ret1) && len(auth) == ite(slen(ret1) == 0, 0, 32)
 //@   ensures !ret0 ==> ret1 == ""
+
+// ---------------------------------------------------------------- C18 / C19 / C23 the session's backend connections
+// sessOut: number of backend connections currently charged to this session (taken from a pool and not yet returned).
+// Ledger invariant of a session between commands: every connection in txConns / ksConns is handed out (so returning it once is
+// legal), no connection sits under two keys, and nothing else is charged to the session: sessOut == len(txConns) + len(ksConns).
+//@ ghost sessOut int
+//@ pure inTx(se *SessionExecutor) bool = se.status & 1 > 0 || !(se.status & 2 > 0)
+//@ pure txHeld(se *SessionExecutor) bool = se.txConns != nil && forall(k string, has(se.txConns, k) ==> se.txConns[k] != nil && connOut[se.txConns[k]] == 1 && isMaster[se.txConns[k]]) && forall(a string, forall(b string, has(se.txConns, a) && has(se.txConns, b) && se.txConns[a] == se.txConns[b] ==> a == b))
+//@ pure ksHeld(se *SessionExecutor) bool = se.ksConns != nil && se.ksConns != se.txConns && forall(k string, has(se.ksConns, k) ==> se.ksConns[k] != nil && connOut[se.ksConns[k]] == 1) && forall(a string, forall(b string, has(se.ksConns, a) && has(se.ksConns, b) && se.ksConns[a] == se.ksConns[b] ==> a == b)) && forall(a string, forall(b string, has(se.txConns, a) && has(se.ksConns, b) ==> se.txConns[a] != se.ksConns[b]))
+//@ pure ledger(se *SessionExecutor) bool = txHeld(se) && ksHeld(se) && sessOut == len(se.txConns) + len(se.ksConns)
+//@ func (*SessionExecutor).isInTransaction
+//@   requires se != nil
+//@   assigns \nothing
+//@   ensures ret0 <==> inTx(se)
+//@ func (*SessionExecutor).isAutoCommit
+//@   requires se != nil
+//@   assigns \nothing
+//@   ensures ret0 <==> se.status & 2 > 0
+//@ func (*SessionExecutor).IsKeepSession
+//@   requires se != nil
+//@   assigns \nothing
+//@   ensures ret0 == se.keepSession
+//@ func (*Namespace).GetSlice
+//@   requires n != nil
+//@   assigns \nothing
+//@   ensures ret0 == n.slices[name]
+
+// inside a transaction a slice is served by ONE master connection: the pinned one when the slice is already part of the
+// transaction, otherwise a connection freshly taken from the slice's master pool, prepared (session variables, then BEGIN or
+// autocommit=0) and pinned; a connection that cannot be prepared is closed and returned exactly once, and nothing is pinned
+//@ func (*SessionExecutor).getTransactionConn
+//@   assigns connOut, sessOut, se.txConns
+//@   requires se != nil && ledger(se) && se.contextNamespace != nil && has(se.contextNamespace.slices, sliceName) && se.contextNamespace.slices[sliceName] != nil
+//@   ghost-update after call GetMasterConn#0: sessOut = sessOut + ite(ret1 == nil, 1, 0)
+//@   ghost-update after call Recycle#0: sessOut = sessOut - 1
+//@   ghost-update after call Recycle#1: sessOut = sessOut - 1
+//@   ghost-update after call Recycle#2: sessOut = sessOut - 1
+//@   loop 0 invariant true
+//@   ensures case pinned:  old(has(se.txConns, sliceName)) ==> ret1 == nil && ret0 == old(se.txConns[sliceName]) && has(se.txConns, sliceName) && se.txConns[sliceName] == ret0 && sessOut == old(sessOut) && forall(c backend.PooledConnect, connOut[c] == old(connOut[c]))
+//@   ensures case taken:   !old(has(se.txConns, sliceName)) && ret1 == nil ==> has(se.txConns, sliceName) && se.txConns[sliceName] == ret0 && isMaster[ret0] && old(connOut[ret0]) == 0
+//@   ensures case others:  forall(k string, k != sliceName ==> has(se.txConns, k) == old(has(se.txConns, k)) && se.txConns[k] == old(se.txConns[k]))
+//@   ensures case failed:  ret1 != nil ==> ret0 == nil && !has(se.txConns, sliceName) && sessOut == old(sessOut) && forall(c backend.PooledConnect, connOut[c] == old(connOut[c]))
+//@   ensures case ledger:  ledger(se)
+
+// COMMIT: sent to every connection of the transaction; each transaction connection is returned exactly once and the
+// transaction table emptied; keep-session connections stay pinned
+//@ func (*SessionExecutor).commit
+//@   requires se != nil && ledger(se)
+//@   ghost-update after call Recycle#0: sessOut = sessOut - 1
+//@   loop 0 invariant se.txConns == old(se.txConns) && se.ksConns == old(se.ksConns) && sessOut == old(sessOut) - iterations() && ksHeld(se)
+//@   loop 0 invariant forall(k string, has(se.txConns, k) == old(has(se.txConns, k)) && se.txConns[k] == old(se.txConns[k])) && forall(k string, has(se.txConns, k) ==> se.txConns[k] != nil && connOut[se.txConns[k]] == ite(visited(k), 0, 1))
+//@   loop 0 invariant forall(a string, forall(b string, has(se.txConns, a) && has(se.txConns, b) && se.txConns[a] == se.txConns[b] ==> a == b))
+//@   loop 1 invariant se.ksConns == old(se.ksConns) && ksHeld(se) && sessOut == len(se.ksConns)
+//@   ensures case emptied: len(se.txConns) == 0 && forall(k string, !has(se.txConns, k))
+//@   ensures case returned: forall(k string, old(has(se.txConns, k)) ==> connOut[old(se.txConns[k])] == 0)
+//@   ensures case ledger:  ledger(se) && se.ksConns == old(se.ksConns)
+//@   ensures case status:  !(se.status & 1 > 0)
+
+// ROLLBACK: as COMMIT
+//@ func (*SessionExecutor).rollback
+//@   requires se != nil && ledger(se)
+//@   ghost-update after call Recycle#0: sessOut = sessOut - 1
+//@   loop 0 invariant se.txConns == old(se.txConns) && se.ksConns == old(se.ksConns) && sessOut == old(sessOut) - iterations() && ksHeld(se)
+//@   loop 0 invariant forall(k string, has(se.txConns, k) == old(has(se.txConns, k)) && se.txConns[k] == old(se.txConns[k])) && forall(k string, has(se.txConns, k) ==> se.txConns[k] != nil && connOut[se.txConns[k]] == ite(visited(k), 0, 1))
+//@   loop 0 invariant forall(a string, forall(b string, has(se.txConns, a) && has(se.txConns, b) && se.txConns[a] == se.txConns[b] ==> a == b))
+//@   loop 1 invariant se.ksConns == old(se.ksConns) && ksHeld(se) && sessOut == len(se.ksConns)
+//@   ensures case emptied: len(se.txConns) == 0 && forall(k string, !has(se.txConns, k))
+//@   ensures case returned: forall(k string, old(has(se.txConns, k)) ==> connOut[old(se.txConns[k])] == 0)
+//@   ensures case ledger:  ledger(se) && se.ksConns == old(se.ksConns)
+//@   ensures case status:  !(se.status & 1 > 0)
+
+// dropping the transaction table after a connection was found closed must return what it drops
+//@ func (*SessionExecutor).recycleTx
+//@   requires se != nil && ledger(se)
+//@   ensures case ledger: ledger(se)
+
+// client exit in keep-session mode: every pinned connection is closed and returned exactly once
+//@ func (*SessionExecutor).handleKsQuit
+//@   requires se != nil && ledger(se)
+//@   ghost-update after call Recycle#0: sessOut = sessOut - 1
+//@   loop 0 invariant se.txConns == old(se.txConns) && se.ksConns == old(se.ksConns) && sessOut == old(sessOut) - iterations() && txHeld(se)
+//@   loop 0 invariant forall(k string, has(se.ksConns, k) == old(has(se.ksConns, k)) && se.ksConns[k] == old(se.ksConns[k])) && forall(k string, has(se.ksConns, k) ==> se.ksConns[k] != nil && connOut[se.ksConns[k]] == ite(visited(k), 0, 1))
+//@   loop 0 invariant forall(a string, forall(b string, has(se.ksConns, a) && has(se.ksConns, b) && se.ksConns[a] == se.ksConns[b] ==> a == b)) && forall(a string, forall(b string, has(se.txConns, a) && has(se.ksConns, b) ==> se.txConns[a] != se.ksConns[b]))
+//@   ensures case emptied: len(se.ksConns) == 0 && forall(k string, !has(se.ksConns, k))
+//@   ensures case returned: forall(k string, old(has(se.ksConns, k)) ==> connOut[old(se.ksConns[k])] == 0)
+//@   ensures case ledger:  ledger(se)
+
+//@ func (*Namespace).GetUserProperty
+//@   requires n != nil && knownUser(n, user)
+//@   assigns \nothing
+//@ trusted (*github.com/XiaoMi/Gaea/util.RequestContext).SetFromSlave
+//@   params recv, v
+//@   pure-call
+// keep-session mode: the slice's pinned connection is reused; otherwise one connection is taken, prepared and pinned; a
+// connection that cannot be prepared is closed, returned exactly once and not handed to the caller
+//@ func (*SessionExecutor).getBackendKsConn
+//@   assigns connOut, sessOut, se.ksConns
+//@   requires se != nil && reqCtx != nil && ledger(se) && se.contextNamespace != nil && has(se.contextNamespace.slices, sliceName) && se.contextNamespace.slices[sliceName] != nil && knownUser(se.contextNamespace, se.user)
+//@   ghost-update after call GetConn#0: sessOut = sessOut + ite(ret1 == nil, 1, 0)
+//@   ghost-update after call Recycle#0: sessOut = sessOut - 1
+//@   ghost-update after call Recycle#1: sessOut = sessOut - 1
+//@   ensures case pinned:  old(has(se.ksConns, sliceName)) ==> ret1 == nil && ret0 == old(se.ksConns[sliceName]) && has(se.ksConns, sliceName) && se.ksConns[sliceName] == ret0 && sessOut == old(sessOut) && forall(c backend.PooledConnect, connOut[c] == old(connOut[c]))
+//@   ensures case taken:   !old(has(se.ksConns, sliceName)) && ret1 == nil ==> has(se.ksConns, sliceName) && se.ksConns[sliceName] == ret0 && old(connOut[ret0]) == 0
+//@   ensures case others:  forall(k string, k != sliceName ==> has(se.ksConns, k) == old(has(se.ksConns, k)) && se.ksConns[k] == old(se.ksConns[k]))
+//@   ensures case failed:  ret1 != nil ==> ret0 == nil && !has(se.ksConns, sliceName) && sessOut == old(sessOut) && forall(c backend.PooledConnect, connOut[c] == old(connOut[c]))
+//@   ensures case ledger:  ledger(se)
+
+// outside a transaction a connection is taken per statement; inside one the slice's transaction connection is used
+//@ func (*SessionExecutor).getBackendNoKsConn
+//@   assigns connOut, sessOut, se.txConns
+//@   requires se != nil && reqCtx != nil && ledger(se) && se.contextNamespace != nil && knownUser(se.contextNamespace, se.user) && (has(se.contextNamespace.slices, sliceName) ==> se.contextNamespace.slices[sliceName] != nil)
+//@   requires inTx(se) ==> has(se.contextNamespace.slices, sliceName)
+//@   ghost-update after call GetConn#0: sessOut = sessOut + ite(ret1 == nil, 1, 0)
+//@   ensures case inTx:    old(inTx(se)) && old(has(se.txConns, sliceName)) ==> ret1 == nil && ret0 == old(se.txConns[sliceName])
+//@   ensures case inTxNew: old(inTx(se)) && ret1 == nil ==> has(se.txConns, sliceName) && se.txConns[sliceName] == ret0 && isMaster[ret0] && ledger(se)
+//@   ensures case noTx:    !old(inTx(se)) && ret1 == nil ==> ret0 != nil && connOut[ret0] == 1 && sessOut == old(sessOut) + 1 && txHeld(se) && ksHeld(se)
+//@   ensures case failed:  ret1 != nil ==> ret0 == nil && sessOut == old(sessOut) && ledger(se)
+//@ func (*SessionExecutor).getBackendConn
+//@   assigns connOut, sessOut, se.txConns, se.ksConns
+//@   requires se != nil && reqCtx != nil && ledger(se) && se.contextNamespace != nil && knownUser(se.contextNamespace, se.user) && has(se.contextNamespace.slices, sliceName) && se.contextNamespace.slices[sliceName] != nil
+//@   assert at call getBackendKsConn#0: se.keepSession
+//@   assert at call getBackendNoKsConn#0: !se.keepSession
+//@   ensures case failed:  ret1 != nil ==> ret0 == nil && sessOut == old(sessOut) && ledger(se)
+//@   ensures case pinnedKs: se.keepSession && ret1 == nil ==> has(se.ksConns, sliceName) && se.ksConns[sliceName] == ret0 && ledger(se)
+//@   ensures case pinnedTx: !se.keepSession && old(inTx(se)) && ret1 == nil ==> has(se.txConns, sliceName) && se.txConns[sliceName] == ret0 && isMaster[ret0] && ledger(se)
+
+// keep-session housekeeping: after a configuration change a client OUTSIDE a transaction drops its pinned connections
+// (each closed and returned exactly once); a client inside one keeps them, and is refused its next command
+// (the namespace the manager currently serves under the session's namespace name: not under contract)
+//@ pure curNs(cc *Session) *Namespace
+//@ func (*Session).getNamespace
+//@   assigns \nothing
+//@   ensures ret0 == curNs(cc)
+//@ func (*Session).clearKsConns
+//@   requires cc != nil && cc.executor != nil && ledger(cc.executor) && curNs(cc) != nil
+//@   ghost-update after call Recycle#0: sessOut = sessOut - 1
+//@   loop 0 invariant cc.executor == old(cc.executor) && cc.executor.txConns == old(cc.executor.txConns) && cc.executor.ksConns == old(cc.executor.ksConns) && sessOut == old(sessOut) - iterations() && txHeld(cc.executor)
+//@   loop 0 invariant forall(k string, has(cc.executor.ksConns, k) == old(has(cc.executor.ksConns, k)) && cc.executor.ksConns[k] == old(cc.executor.ksConns[k])) && forall(k string, has(cc.executor.ksConns, k) ==> cc.executor.ksConns[k] != nil && connOut[cc.executor.ksConns[k]] == ite(visited(k), 0, 1))
+//@   loop 0 invariant forall(a string, forall(b string, has(cc.executor.ksConns, a) && has(cc.executor.ksConns, b) && cc.executor.ksConns[a] == cc.executor.ksConns[b] ==> a == b)) && forall(a string, forall(b string, has(cc.executor.txConns, a) && has(cc.executor.ksConns, b) ==> cc.executor.txConns[a] != cc.executor.ksConns[b]))
+//@   ensures case dropped: old(cc.executor.keepSession && curNs(cc).namespaceChangeIndex > nsChangeIndex && !inTx(cc.executor)) ==> len(cc.executor.ksConns) == 0 && forall(k string, old(has(cc.executor.ksConns, k)) ==> connOut[old(cc.executor.ksConns[k])] == 0)
+//@   ensures case kept:    !old(cc.executor.keepSession && curNs(cc).namespaceChangeIndex > nsChangeIndex && !inTx(cc.executor)) ==> cc.executor.ksConns == old(cc.executor.ksConns) && sessOut == old(sessOut) && forall(c backend.PooledConnect, connOut[c] == old(connOut[c]))
+//@   ensures case ledger:  ledger(cc.executor)
+//@ func (*Session).shouldClearKsAndCloseSession
+//@   requires cc != nil && cc.executor != nil && cc.executor.contextNamespace != nil
+//@   assigns \nothing
+//@   ensures ret0 <==> (cc.executor.keepSession && inTx(cc.executor) && cc.executor.contextNamespace.namespaceChangeIndex > nsChangeIndex)
+// a keep-session client inside a transaction is refused (and nothing reaches a backend) once the configuration changed
+//@ func (*Session).execCommand
+//@   requires cc != nil && cc.executor != nil && cc.executor.contextNamespace != nil
+//@   assert at call ExecuteCommand#0: !(cc.executor.keepSession && inTx(cc.executor) && cc.executor.contextNamespace.namespaceChangeIndex > cc.executor.nsChangeIndexOld)
+
+// a failed ping of a pinned connection gives up the pinned connections: each is returned exactly once and none stays pinned
+//@ func (*SessionExecutor).handleKeepSessionPing
+//@   requires se != nil && ledger(se)
+//@   ghost-update after call Recycle#0: sessOut = sessOut - 1
+//@   loop 0 invariant se.ksConns == old(se.ksConns) && se.txConns == old(se.txConns) && ledger(se) && sessOut == old(sessOut) && forall(c backend.PooledConnect, connOut[c] == old(connOut[c]))
+//@   loop 1 invariant se.txConns == old(se.txConns) && se.ksConns == old(se.ksConns) && sessOut == old(sessOut) - iterations() && txHeld(se)
+//@   loop 1 invariant forall(k string, has(se.ksConns, k) == old(has(se.ksConns, k)) && se.ksConns[k] == old(se.ksConns[k])) && forall(k string, has(se.ksConns, k) ==> se.ksConns[k] != nil && connOut[se.ksConns[k]] == ite(visited(k), 0, 1))
+//@   loop 1 invariant forall(a string, forall(b string, has(se.ksConns, a) && has(se.ksConns, b) && se.ksConns[a] == se.ksConns[b] ==> a == b)) && forall(a string, forall(b string, has(se.txConns, a) && has(se.ksConns, b) ==> se.txConns[a] != se.ksConns[b]))
+//@   ensures case alive:  ret0 == nil ==> se.ksConns == old(se.ksConns) && sessOut == old(sessOut) && forall(c backend.PooledConnect, connOut[c] == old(connOut[c]))
+//@   ensures case ledger: ledger(se)
+
+// the per-statement connections of a multi-slice statement outside a transaction are each returned exactly once
+//@ func (*SessionExecutor).recycleBackendConns
+//@   requires se != nil && forall(k string, has(pcs, k) && pcs[k] != nil ==> connOut[pcs[k]] == 1) && forall(a string, forall(b string, has(pcs, a) && has(pcs, b) && pcs[a] != nil && pcs[a] == pcs[b] ==> a == b))
+//@   loop 0 invariant forall(k string, has(pcs, k) == old(has(pcs, k)) && pcs[k] == old(pcs[k])) && forall(k string, has(pcs, k) && pcs[k] != nil ==> connOut[pcs[k]] == ite(visited(k), 0, 1))
+//@   ensures case returned: !old(inTx(se)) && !se.keepSession ==> forall(k string, has(pcs, k) && pcs[k] != nil ==> connOut[pcs[k]] == 0)
+//@   ensures case held:     old(inTx(se)) || se.keepSession ==> forall(c backend.PooledConnect, connOut[c] == old(connOut[c]))
+
+//@ property C18: (*SessionExecutor).isInTransaction, (*SessionExecutor).isAutoCommit, (*SessionExecutor).IsKeepSession, (*SessionExecutor).getTransactionConn,
+//@   (*SessionExecutor).getBackendNoKsConn, (*SessionExecutor).getBackendConn, (*SessionExecutor).commit, (*SessionExecutor).rollback
+//@ property C19: (*SessionExecutor).isInTransaction, (*SessionExecutor).isAutoCommit, (*SessionExecutor).IsKeepSession, (*SessionExecutor).GetNamespace,
+//@   (*Namespace).GetSlice, (*Namespace).GetUserProperty, (*SessionExecutor).getTransactionConn, (*SessionExecutor).getBackendKsConn, (*SessionExecutor).getBackendNoKsConn,
+//@   (*SessionExecutor).getBackendConn, (*SessionExecutor).commit, (*SessionExecutor).rollback, (*SessionExecutor).recycleTx, (*SessionExecutor).handleKsQuit,
+//@   (*SessionExecutor).recycleBackendConns, (*Session).clearKsConns, (*SessionExecutor).handleKeepSessionPing
+//@ property C23: (*SessionExecutor).getBackendKsConn, (*SessionExecutor).getBackendConn, (*Session).clearKsConns, (*Session).shouldClearKsAndCloseSession,
+//@   (*Session).execCommand, (*SessionExecutor).handleKsQuit, (*SessionExecutor).handleKeepSessionPing
